@@ -454,11 +454,11 @@ theorem argmaxCands_congr (f g : Nat × Nat → α) (l : List (Nat × Nat)) (h :
     simp only [argmaxCands]
     rw [h c (by simp), foldl_argmax_congr f g l _ (fun x hx => h x (by simp [hx]))]
 
-/-- **circular binary segmentation**: local anomaly scores that agree on cuts
-    `s < i < j < e ≤ n` give the same table and the same anomalies -/
-theorem runCbs_congr (las las' : Nat → Nat → Nat → Nat → α) (m n : Nat) (hm : 1 ≤ m) (thr : α)
+/-- **circular binary segmentation**, hypothesis only on the cuts the detector reads: inner interval of at
+    least `m` rows strictly inside the candidate, at least `m` rows around it -/
+theorem runCbs_congr_read (las las' : Nat → Nat → Nat → Nat → α) (m n : Nat) (thr : α)
     (ivs : List (Nat × Nat)) (hivs : ∀ iv ∈ ivs, iv.2 ≤ n)
-    (h : ∀ s i j e, s < i → i < j → j < e → e ≤ n → las s i j e = las' s i j e) :
+    (h : ∀ s i j e, s < i → i + m ≤ j → j < e → m ≤ (e - j) + (i - s) → e ≤ n → las s i j e = las' s i j e) :
     runCbs las m thr ivs = runCbs las' m thr ivs := by
   have hrows : ivs.map (cbsRow las m) = ivs.map (cbsRow las' m) := by
     apply List.map_congr_left
@@ -466,9 +466,17 @@ theorem runCbs_congr (las las' : Nat → Nat → Nat → Nat → α) (m n : Nat)
     simp only [cbsRow]
     rw [argmaxCands_congr (fun c => las iv.1 c.1 c.2 iv.2) (fun c => las' iv.1 c.1 c.2 iv.2)]
     intro c hc
-    obtain ⟨h1, h2, h3, _⟩ := (mem_anomalyIntervals iv.1 iv.2 m c.1 c.2).1 hc
-    exact h _ _ _ _ h1 (by omega) h3 (hivs iv hiv)
+    obtain ⟨h1, h2, h3, h4⟩ := (mem_anomalyIntervals iv.1 iv.2 m c.1 c.2).1 hc
+    exact h _ _ _ _ h1 h2 h3 h4 (hivs iv hiv)
   simp only [runCbs, hrows]
+
+/-- **circular binary segmentation**: local anomaly scores that agree on cuts
+    `s < i < j < e ≤ n` give the same table and the same anomalies -/
+theorem runCbs_congr (las las' : Nat → Nat → Nat → Nat → α) (m n : Nat) (hm : 1 ≤ m) (thr : α)
+    (ivs : List (Nat × Nat)) (hivs : ∀ iv ∈ ivs, iv.2 ≤ n)
+    (h : ∀ s i j e, s < i → i < j → j < e → e ≤ n → las s i j e = las' s i j e) :
+    runCbs las m thr ivs = runCbs las' m thr ivs :=
+  runCbs_congr_read las las' m n thr ivs hivs (fun s i j e h1 h2 h3 _ h5 => h s i j e h1 (by omega) h3 h5)
 
 end cbs
 
